@@ -483,3 +483,18 @@ pub fn drop_unwinding<T>(x: T) -> Result<(), String> {
         Ok(()) => Ok(()),
     }
 }
+
+// ---------------------------------------------- a waker whose clone() panics
+
+pub const PANIC_WAKER_MSG: &str = "verif: this waker panics in clone()";
+unsafe fn vtp_clone(_p: *const ()) -> RawWaker {
+    panic!("{}", PANIC_WAKER_MSG)
+}
+unsafe fn vtp_wake(_p: *const ()) {}
+static VTABLE_PANIC: RawWakerVTable = RawWakerVTable::new(vtp_clone, vtp_wake, vtp_wake, vt_drop);
+/// A waker that unwinds out of `clone()` (legal for a `RawWaker`: its contract says nothing about
+/// panics). A poll that has to store it unwinds; afterwards the future must still be droppable
+/// without leaving its wait node behind (C01).
+pub fn panicking_waker() -> Waker {
+    unsafe { Waker::from_raw(RawWaker::new(63 as *const (), &VTABLE_PANIC)) }
+}
